@@ -7,7 +7,7 @@ META = dict(
 RULE = ("vranks legs: states = distinct canonical global states (monitor fields without statistics/time stamps/lock words, load counters, harness flags, parked and in-flight messages); "
         "non-trivial = a detection wave (control message in flight or parked) coexists with application activity (busy rank, message in transit or half received); "
         "outcomes = distinct fully-terminated terminal states (they differ in the per-rank message counters and last wave sums); "
-        "cosched leg (e1_threads): every schedule with <= b preemptions of 11 two/three-thread scripts (worker entry points vs communication-thread entry points of one rank), "
+        "cosched leg (e1_threads): every schedule with <= b preemptions of 6 (quick) / 11 (thorough) two/three-thread scripts (worker entry points vs communication-thread entry points of one rank), "
         "scheduling points = instrumented accesses to the monitor's protocol fields, the two load counters and the delayed list; outcome = final state + control messages + completion order of the operations")
 import os, subprocess
 from concurrent.futures import ThreadPoolExecutor
@@ -24,20 +24,22 @@ def build(ctx):
     return ctx.compile('hk-mpi', 'fc_h', ['fc_h.c'], instr=False, mpi=True, cflags=['-I/verif/engine/vranks', '-O2'])
 
 
-def build_e1(ctx):
+def build_e1(ctx, quick=False):
+    if quick:
+        return ctx.compile('hk-mpi', 'fc_e1q', ['fc_e1.c'], engine='cosched', instr=True, mpi=True, cflags=['-DE1_QUICK'])
     return ctx.compile('hk-mpi', 'fc_e1', ['fc_e1.c'], engine='cosched', instr=True, mpi=True)
 
 
 def check(ctx):
-    exe = build(ctx)
-    exe1 = build_e1(ctx)
     quick = ctx.tier == 'quick'
+    exe = build(ctx)
+    exe1 = build_e1(ctx, quick)
     common = ['--outdir', '/verif/out', '--deadline', '55' if quick else '840']
     cap = '6000000' if quick else '30000000'
     jobs = [(['bfs'] + [str(x) for x in c] + [cap], 'N%d_T%d_M%d_L%d' % c) for c in (QUICK if quick else THOROUGH)]
     with ThreadPoolExecutor(max_workers=5 if quick else 6) as ex:
         # second leg (E1): one rank under real threads, preemption bound 1 (quick) / 3 (thorough)
-        e1 = ex.submit(lambda: ctx.run_cosched(exe1, int(os.environ.get('VERIF_C11_E1_BOUND', 1 if quick else 3)), deadline=60 if quick else 600, label='e1_threads'))
+        e1 = ex.submit(lambda: ctx.run_cosched(exe1, int(os.environ.get('VERIF_C11_E1_BOUND', 1 if quick else 3)), deadline=45 if quick else 600, label='e1_threads'))
         list(ex.map(lambda j: ctx.run_engine(exe, common + j[0], label=j[1], timeout=1500), jobs))
         e1.result()
     ctx.legs.sort(key=lambda l: l.get('leg', ''))
